@@ -843,6 +843,11 @@ def main():
         files["Fs.lean"] = text
         done += d5
         failed += f5
+        # basicauthmiddleware.cpp: the admission decision and the challenge
+        text, d6, f6 = cxx2lean_qt.translate_auth(repo, exp)
+        files["Auth.lean"] = text
+        done += d6
+        failed += f6
         # proxysocket.cpp: the upstream-side slots and the buffering slot, over the model's Proxy.St
         text, d4, f4 = cxx2lean_qt.translate_proxy(repo, exp)
         files["Proxy.lean"] = text
